@@ -15,6 +15,7 @@ EXPLANATION = (
     "rescaled when parts with different divisions are combined; (TIE) part builders pass notes_tied / the row builder "
     "uses duration_tied; (ONSET) every optional-column map is evaluated at the note's own onset; (F8a) library names "
     "reachable from the builders exist."
+    ' (LIMIT-sib) every limit_denominator(k) of the note-array -> score conversion uses one bound k.'
 )
 NOT_DECIDED = [
     "values of the columns (run-time)", "lcm arithmetic", "round trip array -> score -> array",
@@ -70,6 +71,8 @@ def rule_tie_and_onset(ctx):
 
 
 def run(ctx):
+    from ..rules import round6 as _R6
+    _R6.rule_limit_denominator_agrees(ctx, ['partitura.musicanalysis.note_array_to_score:create_divs_from_beats'])
     from ..rules import round5 as _R5
     _R5.rule_common_divisions_lcm(ctx)
     from ..rules import extra as _X4
